@@ -263,6 +263,10 @@ func runHarness(l *Loaded, spec HarnessSpec, tier string, known map[string]Known
 				}
 				w.e.wantSamples = 1
 				for p := range ch {
+					if !deadline.IsZero() && time.Now().After(deadline) {
+						w.e.stats.Unsupported["wall-clock budget exceeded (exploration incomplete)"]++
+						continue
+					}
 					w.run(p, 0)
 				}
 				collect(w.e)
